@@ -24,3 +24,33 @@ package packagerender
 //@   loop 1 invariant? [C13] len(paths) == visitedcount()
 //@   loop 1 invariant? [C13] forall a int :: 0 <= a && a < len(paths) ==> visited(paths[a])
 //@   loop 1 invariant? [C13] forall a int, b int :: 0 <= a && a < b && b < len(paths) ==> paths[a] != paths[b]
+
+// ---- phases in manifest order, no phase lost or duplicated (phaseCollector.Collect) ----
+// the comparison handed to sort.Slice orders by the manifest index
+//@ func package-operator.run/internal/packages/internal/packagerender.(phaseCollector).Collect$1
+//@   readonly
+//@   ensures result == ((*entries)[i].Index < (*entries)[j].Index)
+
+// Ghost witnesses: colKey(a) is the key of the collector entry appended at position a, colPos(k) the position entry k
+// was appended at; sortperm(1, a) is where the element at position a after sorting was before.
+//@ func package-operator.run/internal/packages/internal/packagerender.(phaseCollector).Collect
+//@   at append#1 ghost colKey(len(entries)) := rangekey()
+//@   at append#1 ghost colPos(rangekey()) := len(entries)
+//@   loop 1 invariant gomem_unchanged() && (cap(entries) == 0 || (fresh(sarr(entries)) && allocated(sarr(entries))))
+//@   loop 1 invariant forall a int :: { colKey(a) } 0 <= a && a < len(entries) ==> visited(colKey(a)) && (colKey(a) in c) && entries[a] == c[colKey(a)] && colPos(colKey(a)) == a && len(c[colKey(a)].Phase.Objects) != 0
+//@   loop 1 invariant forall k string :: { visited(k) } visited(k) && (k in c) && len(c[k].Phase.Objects) != 0 ==> 0 <= colPos(k) && colPos(k) < len(entries) && colKey(colPos(k)) == k
+// after sorting: position a holds the entry of key colKey(sortperm(1, a)), in non-decreasing manifest index
+//@   loop 2 invariant entries == loopentry(entries) && (len(entries) == 0 || root(sarr(phases)) != root(sarr(entries)))
+//@   loop 2 invariant 0 <= idx && idx <= len(entries) && len(phases) == len(entries) && gomem_unchanged() && (cap(phases) == 0 || (fresh(sarr(phases)) && allocated(sarr(phases))))
+//@   loop 2 invariant forall a int :: { sortperm(1, a) } 0 <= a && a < len(entries) ==> (colKey(sortperm(1, a)) in c) && entries[a] == c[colKey(sortperm(1, a))] && len(c[colKey(sortperm(1, a))].Phase.Objects) != 0
+//@   loop 2 invariant forall a int, b int :: { entries[a].Index, entries[b].Index } 0 <= a && a < b && b < len(entries) ==> entries[a].Index <= entries[b].Index
+//@   loop 2 invariant forall a int :: { phases[a].Name } 0 <= a && a < idx ==> phases[a].Name == entries[a].Phase.Name
+//@   loop 2 invariant forall a int :: { phases[a].Class } 0 <= a && a < idx ==> phases[a].Class == entries[a].Phase.Class
+//@   loop 2 invariant forall a int :: { phases[a].Objects } 0 <= a && a < idx ==> phases[a].Objects == entries[a].Phase.Objects
+//@   loop 2 invariant forall a int :: { phases[a].Slices } 0 <= a && a < idx ==> phases[a].Slices == entries[a].Phase.Slices
+// Result: the phases of exactly the non-empty collector entries, each once, ordered by manifest index; the collector
+// itself (and everything else that existed) is not written.
+//@   ensures [C13] gomem_unchanged()
+//@   ensures [C13] forall a int :: { result[a] } 0 <= a && a < len(result) ==> (colKey(sortperm(1, a)) in c) && result[a] == c[colKey(sortperm(1, a))].Phase && len(result[a].Objects) != 0
+//@   ensures [C13] forall a int, b int :: { result[a], result[b] } 0 <= a && a < b && b < len(result) ==> c[colKey(sortperm(1, a))].Index <= c[colKey(sortperm(1, b))].Index && colKey(sortperm(1, a)) != colKey(sortperm(1, b))
+//@   ensures [C13] forall k string :: { colPos(k) } (k in c) && len(c[k].Phase.Objects) != 0 ==> 0 <= sortperminv(1, colPos(k)) && sortperminv(1, colPos(k)) < len(result) && colKey(sortperm(1, sortperminv(1, colPos(k)))) == k
